@@ -118,3 +118,49 @@ contract(
     from_property="can be read back ... after a flush from the on-disk store ... in append order, with no duplicates or inventions; `len(history)` "
                   "stays consistent (every command dropped at flush time is reported to the owning history exactly once)",
 )
+
+
+# ---- the SQLite backend, in-memory side: a kept command goes last in each of the parallel session lists and to the store exactly once ----
+SQ = "xonsh/history/sqlite.py::"
+TS = Opaque("ts")
+SQH = Obj("SqliteHistory", remember_history=Bool, inps=List(Str), outs=List(Union(NoneT, Str)), rtns=List(Int), tss=List(TS), cwds=List(Union(NoneT, Str)),
+          save_cwd=Bool, _last_hist_inp=Union(NoneT, Str), sessionid=Opaque("uuid"), filename=Union(NoneT, Str))
+SQ_EXT = {
+    "SqliteHistory.is_ignored": Ext(ret=Bool, pure=True, uf="ignored"), "ignored": Ext(ret=Bool, pure=True, uf="ignored"),
+    'Env.get("HISTCONTROL")': Ext(ret=Str, pure=True, uf="histcontrol"), "histcontrol": Ext(ret=Str, pure=True, uf="histcontrol"),
+    'Env.get("XONSH_STORE_STDOUT")': Ext(ret=Bool, pure=True),
+    'cmd.__getitem__("inp")': Ext(ret=Str, pure=True, uf="inp_of"), "inp_of": Ext(ret=Str, pure=True, uf="inp_of"),
+    'cmd.__getitem__("rtn")': Ext(ret=Int, pure=True, uf="rtn_of"), "rtn_of": Ext(ret=Int, pure=True, uf="rtn_of"),
+    'cmd.get("spc")': Ext(ret=Bool, pure=True, uf="spc_of"), "spc_of": Ext(ret=Bool, pure=True, uf="spc_of"),
+    'cmd.get("out")': Ext(ret=Union(NoneT, Str), pure=True, uf="out_of"), "out_of": Ext(ret=Union(NoneT, Str), pure=True, uf="out_of"),
+    'cmd.get("ts")': Ext(ret=TS, pure=True, uf="ts_of"), "ts_of": Ext(ret=TS, pure=True, uf="ts_of"),
+    'cmd.get("cwd")': Ext(ret=Union(NoneT, Str), pure=True, uf="cwd_of"), "cwd_of": Ext(ret=Union(NoneT, Str), pure=True, uf="cwd_of"),
+    "cmd.__contains__": Ext(ret=Bool), 'cmd.__delitem__("spc")': Ext(raises=["KeyError"]), 'cmd.__delitem__("cwd")': Ext(),
+    "str": Ext(ret=Str, pure=True, uf="textof"),
+    "xh_sqlite_append_history": Ext(event="store", log=0, log_type=CMD, raises=["sqlite3.OperationalError"], note="its own contract (C13): one INSERT inside one connection scope"),
+    "print": Ext(),
+}
+_INP = "inp_of(cmd, 'inp').rstrip()"
+SQ_KEPT = ("(self.remember_history and not ignored(self, cmd) and not ('ignoredups' in histcontrol('HISTCONTROL', '') and %s == old(self._last_hist_inp)) "
+           "and not ('ignoreerr' in histcontrol('HISTCONTROL', '') and rtn_of(cmd, 'rtn') != 0) "
+           "and not ('ignorespace' in histcontrol('HISTCONTROL', '') and spc_of(cmd, 'spc')))" % _INP)
+PARALLEL = "len(self.outs) == len(self.inps) and len(self.rtns) == len(self.inps) and len(self.tss) == len(self.inps) and len(self.cwds) == len(self.inps)"
+contract(
+    SQ + "SqliteHistory.append", "C12", params=dict(self=SQH, cmd=CMD), globals={"XSH": Obj("XSH", env=Obj("Env"))}, externals=SQ_EXT,
+    requires={"the-session-lists-are-parallel": PARALLEL},
+    modifies=["self.inps", "self.outs", "self.rtns", "self.tss", "self.cwds", "self._last_hist_inp"], emits=["store"],
+    ensures={
+        "an-excluded-command-changes-nothing-and-is-not-stored":
+            "implies(not %s, self.inps == old(self.inps) and self.rtns == old(self.rtns) and self.outs == old(self.outs) and self.tss == old(self.tss) "
+            "and self.cwds == old(self.cwds) and self._last_hist_inp == old(self._last_hist_inp) and len(log('store')) == 0)" % SQ_KEPT,
+        "a-kept-command-goes-last-in-every-session-list-with-its-own-values":
+            "implies(%s, self.inps == old(self.inps) + [%s] and self.rtns == old(self.rtns) + [rtn_of(cmd, 'rtn')] and len(self.outs) == old(len(self.outs)) + 1 "
+            "and len(self.tss) == old(len(self.tss)) + 1 and len(self.cwds) == old(len(self.cwds)) + 1)" % (SQ_KEPT, _INP),
+        "a-kept-command-is-sent-to-the-store-exactly-once": "implies(%s, len(log('store')) == 1 and log('store')[0] == cmd)" % SQ_KEPT,
+        "the-session-lists-stay-parallel": PARALLEL,
+        "the-duplicate-filter-remembers-it": "implies(%s, self._last_hist_inp == %s)" % (SQ_KEPT, _INP),
+    },
+    assumptions=["cmd is a dict with 'inp', 'rtn' (read through ghost accessors); the SQL itself is executed by the database engine"],
+    from_property="Every command appended to the session history and not excluded by $HISTCONTROL/ignore rules can be read back ... (SQLite drops only trailing whitespace) ... in append "
+                  "order, with no duplicates or inventions; a store error (sqlite3.OperationalError) is reported, never raised into the shell",
+)
